@@ -152,5 +152,36 @@ def shared_variants(tier):
     return out
 
 
+def unary_over_nary_with_constants(tier):
+    """a unary node over a product / sum that contains a constant at each position (rules that look for a constant factor or term)"""
+    out = []
+    ks = [["Cosine"], ["Sine"], ["Negation"], ["Reciprocal"], ["Exponential"], ["Logarithm"], ["NthPower", 2], ["NthPower", 3], ["NthRoot", 3]]
+    for k in ks:
+        for inner_kind in ("Multiply", "Add"):
+            for cv in (-1, 0, 1, 2):
+                for pos in range(3):
+                    kids = [X, Y, Z]
+                    kids[pos] = const(cv)
+                    out.append([k[0], [inner_kind] + kids] + k[1:])
+            out.append([k[0], [inner_kind, const(-1), X]] + k[1:])
+            out.append([k[0], [inner_kind, X, const(-1)]] + k[1:])
+            out.append([k[0], [inner_kind, ["Negation", X], Y]] + k[1:])
+    return out
+
+
+def tiny_and_symbolic_folds(tier):
+    """variable-free compound sub-trees whose value is tiny or symbolic (constant folding must keep the value)"""
+    c1, c2 = const(["sym", "c1"]), const(["sym", "c2"])
+    vf = [["Multiply", const(1e-7), const(1e-7)], ["NthPower", const(1e-5), 3], ["Negation", const(1e-13)], ["Reciprocal", const(1e15)],
+          ["Exponential", const(-25)], ["Multiply", const(6.626e-34), const(2.998e8)], ["Multiply", c1, c2], ["Add", c1, c2], ["Reciprocal", c1],
+          ["NthPower", c1, 2], ["Minus", c1, c2], ["Divide", c1, c2], ["Negation", c1]]
+    out = []
+    for v in vf:
+        out += [["Divide", X, v], ["Multiply", X, v], ["Add", X, v], ["Multiply", ["NthPower", X, 3], v], ["Logarithm", ["Add", X, v]], ["Power", X, v],
+                ["Multiply", v, ["Reciprocal", X]]]
+    return out
+
+
 def f4(tier):
-    return dedup(param_pairs(tier) + unary_over_unary(tier) + power_patterns(tier) + nary_patterns(tier) + variable_free(tier))
+    return dedup(param_pairs(tier) + unary_over_unary(tier) + power_patterns(tier) + nary_patterns(tier) + variable_free(tier)
+                 + unary_over_nary_with_constants(tier) + tiny_and_symbolic_folds(tier))
